@@ -18,6 +18,11 @@ type ZBadCplx struct {
 	A int32
 }
 
+type ZBadPtr struct {
+	A    int32
+	Done *chan int
+}
+
 type ZV1 struct {
 	A int32
 }
@@ -51,7 +56,7 @@ func H_C13_unsupported() {
 	bad := vBadValue(kind)
 	x := vInt32("x")
 	var v interface{}
-	pos := vChoice("position", 15)
+	pos := vChoice("position", 18)
 	sharedName := false
 	switch pos {
 	case 12: // two Go types registered under one remote class name; the second one holds the bad value
@@ -60,6 +65,20 @@ func H_C13_unsupported() {
 	case 13: // the same, other order
 		v = []interface{}{&ZV2{A: x, C: int32(1)}, &ZV1{A: 3}, &ZV2{A: 2, C: bad}}
 		sharedName = true
+	case 15: // a pointer to the nil value of an unsupported kind
+		switch kind {
+		case 0:
+			v = []interface{}{x, new(chan int), int32(3)}
+		case 1:
+			v = []interface{}{x, new(func()), int32(3)}
+		default:
+			v = []interface{}{x, new(complex128), int32(3)}
+		}
+	case 16:
+		v = &ZBadPtr{A: x, Done: new(chan int)}
+	case 17:
+		var nilChan chan int
+		v = map[string]interface{}{"k": nilChan, "j": x}
 	case 14: // anonymous structs all share the empty class name
 		v = struct{ In interface{} }{In: struct{ C interface{} }{C: bad}}
 	}
